@@ -67,6 +67,7 @@ fn word(l: HL, w: &'static str) -> String {
 
 fn shapes() -> Vec<Vec<Spec>> {
     vec![
+        vec![Spec::Same("")],
         vec![Spec::Same("x")],
         vec![Spec::W("about")],
         vec![Spec::W("about"), Spec::Param],
@@ -118,7 +119,11 @@ fn page_segments(p: &Page, l: HL, localized: bool) -> Vec<String> {
             for s in &shapes()[*shape] {
                 match s {
                     Spec::W(w) => out.push(if localized { word(l, w) } else { word(HL::default(), w) }),
-                    Spec::Same(w) => out.push(w.to_string()),
+                    Spec::Same(w) => {
+                        if !w.is_empty() {
+                            out.push(w.to_string())
+                        }
+                    }
                     Spec::Param => {
                         out.push(params[pi % params.len()].to_string());
                         pi += 1;
@@ -268,7 +273,36 @@ pub fn run(tier: Tier) -> i32 {
         let cfg = configs[ci];
         let base = BASES[bi];
         CONFIG.set(cfg);
-        let segs = table(cfg, with_routes);
+        // with a route table: the tables the real <I18nRoute> keeps (read through the stored_segments hook)
+        let (real, stored) = crate::routes::real_routes(base);
+        let segs = if with_routes {
+            let hand = table(cfg, true);
+            for l in cfg {
+                let key = |v: &Vec<Vec<PathSegment>>| {
+                    let mut k: Vec<String> = v.iter().map(|s| format!("{s:?}")).collect();
+                    k.sort();
+                    k
+                };
+                if stored.get(l).map(key) != hand.get(l).map(key) {
+                    rep.violation(
+                        format!("C14/route-table: locales {:?}: segments stored for {} are {:?}, the route table in that locale's words is {:?}", cfg.iter().map(|l| l.as_str()).collect::<Vec<_>>(), l.as_str(), stored.get(l), hand.get(l)),
+                        json!({}),
+                    );
+                }
+            }
+            stored.clone()
+        } else {
+            table(cfg, false)
+        };
+        // the page a URL shows according to the real route objects: (route id, params) after the base path
+        let page_of = |url: &str| -> Option<(String, Option<leptos_router::RouteMatchId>, Vec<(String, String)>)> {
+            let (p, _, _) = split_url(url);
+            let all: Vec<&str> = p.split('/').filter(|s| !s.is_empty()).collect();
+            let b = base_segs(base);
+            let rel = if all.len() >= b.len() && all[..b.len()] == b[..] { &all[b.len()..] } else { return None };
+            let rel_path = if rel.is_empty() { String::new() } else { format!("/{}", rel.join("/")) };
+            crate::routes::observe(&real, &rel_path).map(|(o, id)| (o.prefix, id, o.params))
+        };
         let mut local_states = BTreeSet::new();
         let mut trans = 0u64;
         with_owner(|| {
@@ -328,6 +362,27 @@ pub fn run(tier: Tier) -> i32 {
                                                 json!({}),
                                             );
                                         }
+                                        // the real route objects show the same page (route, parameters) before and after, under the new prefix
+                                        if with_routes && matches!(page, Page::Inst { .. }) {
+                                            let before = page_of(&url);
+                                            let after = page_of(&got);
+                                            let want_prefix = if next == HL::default() { String::new() } else { format!("/{}", next.as_str()) };
+                                            let ok = match (&before, &after) {
+                                                (Some((_, ib, pb)), Some((pa, ia, pp))) => ib == ia && pb == pp && *pa == want_prefix,
+                                                _ => false,
+                                            };
+                                            if !ok {
+                                                rep.violation(
+                                                    format!(
+                                                        "C14/page: locales {:?} base {base:?}: {url:?} is matched by the real routes as {before:?}; after switching {} -> {} the URL {got:?} is matched as {after:?} (same route and parameters under prefix {want_prefix:?} expected)",
+                                                        cfg.iter().map(|l| l.as_str()).collect::<Vec<_>>(),
+                                                        cur.as_str(),
+                                                        next.as_str()
+                                                    ),
+                                                    json!({"url": url, "new_url": got}),
+                                                );
+                                            }
+                                        }
                                         frontier.push_back((got, next, d + 1));
                                     }
                                 }
@@ -341,16 +396,35 @@ pub fn run(tier: Tier) -> i32 {
         *n_trans.lock().unwrap() += trans;
         states.lock().unwrap().extend(local_states);
     });
+    // ---- C: the real route objects: N+1 families, whole-segment prefix matching, stored tables ---------------
+    let c_paths = Mutex::new(0u64);
+    let c_matched = Mutex::new(0u64);
+    let c_outcomes = Mutex::new(BTreeSet::<String>::new());
+    par_for(configs.len(), |_, ci| {
+        let cfg = configs[ci];
+        CONFIG.set(cfg);
+        let f = with_owner(|| crate::routes::check_config(cfg, "/", tier == Tier::Thorough));
+        for pr in f.problems.iter().take(25) {
+            rep.violation(format!("C14/routes: {pr}"), json!({}));
+        }
+        rep.eval(f.paths);
+        *c_paths.lock().unwrap() += f.paths;
+        *c_matched.lock().unwrap() += f.matched;
+        c_outcomes.lock().unwrap().extend(f.outcomes);
+    });
     let n_states = states.lock().unwrap().len() as u64;
     rep.nontriv(n_states);
     rep.trans(*n_trans.lock().unwrap());
     rep.sample(json!({"locales": ["en", "fr"], "base": "/", "url": "/english/course", "switch": "en -> fr", "expected": "/fr/english/course"}));
     rep.sample(json!({"locales": ["en", "fr", "fr-CA"], "base": "app", "url": "/app/fr-CA/usagers/42/apropos-ca?a=1&b=fr#fr", "switch": "fr-CA -> fr", "expected": "/app/fr/utilisateurs/42/a-propos?a=1&b=fr#fr"}));
     let mut cov = serde_json::Map::new();
-    cov.insert("rule".into(), json!(format!("locale sets {sets:?} (default first; names that are prefixes of each other and of path words) x base paths {BASES:?}; (A) get_locale_from_path on every path of <= 2 (thorough 3) segments over {WORDS:?}, under the base and not, with and without trailing slash, against a whole-segment oracle; (B) explicit-state exploration: state = (URL, locale); from the URL of every page (7 route shapes with static / param / optional / splat / localized segments instantiated with 4 parameter sets, optional present or not, plus 5 paths no route knows) in every locale, with and without query and fragment, with and without a route table, every sequence of <= {depth} locale switches, each step calling the real get_new_path with the real previous locale; invariants per transition: result == base + new prefix (none for the default) + localized segments + untouched other segments, query and fragment (so A->B->A returns the original URL), and the locale read back from the new URL is the one switched to")));
+    cov.insert("rule".into(), json!(format!("locale sets {sets:?} (default first; names that are prefixes of each other and of path words) x base paths {BASES:?}; (A) get_locale_from_path on every path of <= 2 (thorough 3) segments over {WORDS:?}, under the base and not, with and without trailing slash, against a whole-segment oracle; (B) explicit-state exploration: state = (URL, locale); from the URL of every page (7 route shapes with static / param / optional / splat / localized segments instantiated with 4 parameter sets, optional present or not, plus 5 paths no route knows) in every locale, with and without query and fragment, with and without a route table, every sequence of <= {depth} locale switches, each step calling the real get_new_path with the real previous locale; invariants per transition: result == base + new prefix (none for the default) + localized segments + untouched other segments, query and fragment (so A->B->A returns the original URL), the locale read back from the new URL is the one switched to, and the real route objects match the URL before and after as the same route with the same parameters under the new prefix; with a route table the segment tables are the ones the real <I18nRoute> stored (hook stored_segments); (C) the real <I18nRoute> built natively with i18n_path! segments (home, static, localized, param, optional, splat): generate_routes() == for every locale the plain leptos_router table in that locale's words under the locale prefix, plus the default's table unprefixed; match_nested() on every path of <= 3 (4 after a locale name) segments over locale names, localized words of every locale, glued forms (locale name + more characters in the same segment), truncated and upper-cased names, with and without trailing slash: the answer must be the plain leptos_router answer for the locale whose name equals the first segment exactly, or the default locale's answer for the whole path, or no match when neither exists")));
     cov.insert("exhaustive".into(), json!(true));
     cov.insert("states".into(), json!(n_states.max(1)));
     cov.insert("depth".into(), json!(depth));
+    cov.insert("route_object_paths".into(), json!(*c_paths.lock().unwrap()));
+    cov.insert("route_object_paths_matched".into(), json!(*c_matched.lock().unwrap()));
+    cov.insert("route_object_distinct_outcomes".into(), json!(c_outcomes.lock().unwrap().len()));
     cov.insert("locale_from_path_answers".into(), json!(*a_classes.lock().unwrap()));
     rep.finish(cov, &["the browser glue (update_path_effect, navigate, popstate) needs web_sys: modelled by the driver (set locale -> real get_new_path with the real previous locale -> adopt the URL)", "a trailing slash on the path is not a segment (normalised away before comparing)"])
 }
